@@ -20,6 +20,8 @@ EXC_CLASSES = {
     "InjectedFault": InjectedFault,
     "ArithmeticError": ArithmeticError,
     "KeyError": KeyError,
+    "KeyboardInterrupt": KeyboardInterrupt,      # parent-side phase faults only (a user pressing Ctrl-C during the call)
+    "SystemExit": SystemExit,
 }
 
 
